@@ -173,7 +173,7 @@ impl Report {
         // vacuity checks (driver-side only): required goals and more than one distinct outcome
         let mut vacuous: Vec<String> = vec![];
         let complete = caps.is_empty();
-        if errors.is_empty() && complete {
+        if errors.is_empty() && complete && classes.is_empty() {
             for g in &self.required_goals {
                 if goals.get(g).copied().unwrap_or(0) == 0 {
                     vacuous.push(format!("coverage goal `{g}` never met by the driver"));
